@@ -137,7 +137,13 @@ pub fn file_tag(src0: &str) -> Option<String> {
                     }
                 }
             };
-            let k = skip(i + 2);
+            let mut k = skip(i + 2);
+            // redundant parentheses around the literal are dropped by the parser: the same construct
+            let mut parens = 0;
+            while src[k..].starts_with('(') {
+                parens += 1;
+                k = skip(k + 1);
+            }
             if let Some(q) = src[k..].chars().next().filter(|c| *c == '"' || *c == '\'') {
                 let mut m = k + 1;
                 let mut closed = false;
@@ -154,8 +160,12 @@ pub fn file_tag(src0: &str) -> Option<String> {
                     m += 1;
                 }
                 if closed {
-                    let e = skip(m + 1);
-                    if src[e..].starts_with("}}") {
+                    let mut e = skip(m + 1);
+                    while parens > 0 && src[e..].starts_with(')') {
+                        parens -= 1;
+                        e = skip(e + 1);
+                    }
+                    if parens == 0 && src[e..].starts_with("}}") {
                         return Some("lone-string-literal-binding-printed-static".to_string());
                     }
                 }
